@@ -29,7 +29,7 @@ var (
 		`........bxx.fr..................` + // 0x00
 		`xx"xoxhxxxooxoox0000000000xxhxho` + // 0x20
 		`ooooooooooooooooooooooooooox\xoo` + // 0x40
-		"oooooooooooooooooooooooooooxoxo." + // 0x60
+		"xooooooooooooooooooooooooooxxxo." + // 0x60
 		`88888888888888888888888888888888` + // 0x80
 		`88888888888888888888888888888888` + // 0xa0
 		`88888888888888888888888888888888` + // 0xc0
